@@ -56,7 +56,7 @@ type softStat struct {
 
 func main() {
 	tsh.Main("C17", "exploration", 12*time.Minute, func(r *vlib.Run) {
-		r.Rule("RunT calls with Params.Deadline 0.4 / 0.7 / 1.2 / 2 / 3 / 5 / 8 s ahead (round-robin) and 1-6 scripts each, mixing foreground commands that block for ever (die on the interrupt), trap the interrupt and exit, ignore the interrupt (must be killed), exit at about the moment the context expires, scripts that finish early, scripts with SIGINT-terminable background jobs, and scripts blocked in 'wait' for a background job that never ends. Three ways of running them: subtests released as soon as RunT returned (plain), released 20-35% of the distance later (the parent test keeps working; the deadline stays where it is), and under a T that runs subtests one after another (scripts after the first blocked one start with the context already expired). Evaluations = scripts run; distinct non-trivial = distinct (deadline distance, multiset of script kinds) cases containing at least one blocked script.")
+		r.Rule("RunT calls with Params.Deadline 0.4 / 0.7 / 1.2 / 2 / 3 / 5 / 8 s ahead (round-robin) and 1-6 scripts each, mixing foreground commands that block for ever (die on the interrupt), trap the interrupt and exit, ignore the interrupt (must be killed), exit at about the moment the context expires, exit at once but leave a grandchild holding their output pipes across the expiry, scripts that finish early, scripts with SIGINT-terminable background jobs, and scripts blocked in 'wait' for a background job that never ends. Three ways of running them: subtests released as soon as RunT returned (plain), released 20-35% of the distance later (the parent test keeps working; the deadline stays where it is), and under a T that runs subtests one after another (scripts after the first blocked one start with the context already expired). Evaluations = scripts run; distinct non-trivial = distinct (deadline distance, multiset of script kinds) cases containing at least one blocked script.")
 		r.Assume("grace = max(100 ms, (deadline - start)/20) as documented in RunT; eps = 20 ms for the difference between the harness' and RunT's reading of the clock; lateness (soft bounds, slack 150 ms) is judged only in cases whose calibration goroutine and calibration helper were never more than 30 ms late, and is a violation only when the same bound is breached, for one deadline distance, in >= 3 quiet cases and >= 80% of the quiet cases exercising it at that distance; a regression that makes cleanup late by less than 150 ms is not detected")
 		base := vlib.Scratch()
 		rng := r.Rand("cases")
@@ -103,7 +103,7 @@ func main() {
 			os.MkdirAll(dir, 0o777)
 			defer os.RemoveAll(dir)
 			n := 1 + crng.Intn(6)
-			kinds := []string{"block", "trapquit", "ignorequit", "exitat", "early", "bgblock", "bgwait", "block", "trapquit", "ignorequit"}
+			kinds := []string{"block", "trapquit", "ignorequit", "exitat", "early", "bgblock", "bgwait", "block", "trapquit", "ignorequit", "orphanpipe"}
 			var specs []scriptSpec
 			var files []string
 			anyBlocked := false
@@ -190,6 +190,11 @@ func main() {
 					sp.Text = fmt.Sprintf("%sexec vhelper ignorequit %s\n%s", neg, sp.Pid, tail)
 				case "exitat":
 					sp.Text = fmt.Sprintf("exec vhelper exitat %s %d\n", sp.Pid, expiryLo+int64(crng.Intn(40)-20)*int64(time.Millisecond))
+				case "orphanpipe":
+					// the command's own process exits at once, but a grandchild keeps its output pipes open
+					// until one grace period after the earliest expiry: when the context fires there is
+					// nothing left to signal, and the command ends by itself before the deadline
+					sp.Text = fmt.Sprintf("exec vhelper orphan %s %d\n", sp.Pid, expiryLo+int64(graceHi))
 				case "early":
 					sp.Text = "exec vhelper out early\nstdout early\nexec vhelper sleepexit 30 0\n"
 				case "bgwait":
@@ -307,7 +312,7 @@ func main() {
 						}
 					}
 					continue
-				case "exitat":
+				case "exitat", "orphanpipe":
 					if v == "unfinished" && !hardHit {
 						mk("script-unfinished", sp.Name+" never finished", log)
 					}
@@ -325,6 +330,13 @@ func main() {
 				switch sp.Kind {
 				case "trapquit", "ignorequit":
 					tq := readMono(sp.Pid + ".quit")
+					if ready := readMono(sp.Pid + ".ready"); tq == 0 && (ready == 0 || ready > expiryLo-int64(eps)) {
+						// the helper had not installed its handler by the time the context could expire
+						// (process start-up took longer than the script's whole budget): the interrupt ended
+						// it the default way, and nothing about its arrival time can be read off
+						r.Count("helpers_not_ready_before_the_interrupt", 1)
+						break
+					}
 					if tq == 0 {
 						mk("interrupt-never-arrived", fmt.Sprintf("%s (%s) never received the interrupt signal (it was ended some other way)", sp.Name, sp.Kind), log)
 						break
@@ -358,7 +370,7 @@ func main() {
 			// no helper may survive
 			pfs, _ := filepath.Glob(filepath.Join(dir, "pid*"))
 			for _, pf := range pfs {
-				if strings.HasSuffix(pf, ".quit") {
+				if strings.HasSuffix(pf, ".quit") || strings.HasSuffix(pf, ".ready") {
 					continue
 				}
 				if pid, alive := tsh.PidAlive(pf); alive {
